@@ -10,7 +10,7 @@ Definition f5 (ai : N) : list label :=
 
 (* two endpoints, both called once; endpoint 0 then fails five times in a row over five seconds *)
 Definition h_streak : list label :=
-  [Refresh [0; 1]%N; SelPick 0 0; Out 0 true false; SelPick 1 1; Out 1 true false] ++ f5 0%N ++ [Advance 5].
+  [Refresh [0; 1]%N []; SelPick 0 0; Out 0 true false; SelPick 1 1; Out 1 true false] ++ f5 0%N ++ [Advance 5].
 Definition st (ls : list label) : state := match run init ls with Some s => s | None => init end.
 
 Example ex_streak_hyps :
@@ -50,7 +50,7 @@ Proof. eexists. split; [vm_compute; reflexivity |]. vm_compute. auto. Qed.
 
 (* every endpoint blocked: the selectors are empty, calls are still attempted (on a registry endpoint) *)
 Definition h_allblocked : list label :=
-  [Refresh [0; 1]%N; SelPick 0 0; SelPick 1 1] ++ f5 0%N ++ f5 1%N ++ [Advance 5; Check []].
+  [Refresh [0; 1]%N []; SelPick 0 0; SelPick 1 1] ++ f5 0%N ++ f5 1%N ++ [Advance 5; Check []].
 Example ex_all_blocked :
   run init h_allblocked = Some (st h_allblocked) /\ sel (st h_allblocked) = [] /\ reg (st h_allblocked) = [0; 1]%N /\
   step (st h_allblocked) SelNone = None /\
@@ -66,8 +66,8 @@ Qed.
    adapter has been blocked for a streak of its own - the old adapter's reinstatement puts endpoint 0 back into the selectors.
    From then on endpoint 0 is in rotation although its adapter is blocked, and status checks do not remove it. *)
 Definition h_stale : list label :=
-  [Refresh [0; 1]%N; SelPick 0 0; Out 0 true false; SelPick 1 1; Out 1 true false] ++ f5 0%N ++
-  [Advance 5; Check []; Advance 30; Check [0; 1]%N; Refresh [1%N]; Refresh [0; 1]%N; SelProbe 0; Out 0 true true;
+  [Refresh [0; 1]%N []; SelPick 0 0; Out 0 true false; SelPick 1 1; Out 1 true false] ++ f5 0%N ++
+  [Advance 5; Check []; Advance 30; Check [0; 1]%N; Refresh [1%N] []; Refresh [0; 1]%N []; SelProbe 0; Out 0 true true;
    SelPick 0 2] ++ f5 2%N ++ [Advance 5; Check []; Reinstate 0].
 
 Theorem streak_clause_refuted_after_refresh :
